@@ -1,4 +1,5 @@
 import PcfgVerif.Lemmas.GridAdopt
+import PcfgVerif.Lemmas.GridFragRestore
 /-! `restoreWalk` / `restoreNodes`: the rebuilt queue is (a permutation of) the roots of the
 sub-system of the nodes of probability ≤ m. -/
 namespace Pcfg
